@@ -14,8 +14,11 @@ import importlib  # noqa: E402
 
 PROPS = {}
 for _f in sorted(glob.glob(os.path.join(os.path.dirname(os.path.abspath(__file__)), "props_*.py"))):
-    _m = importlib.import_module(os.path.basename(_f)[:-3])
-    PROPS.update(_m.PROPS)
+    try:
+        _m = importlib.import_module(os.path.basename(_f)[:-3])
+        PROPS.update(_m.PROPS)
+    except Exception as _e:  # a broken family must not take the others down
+        print("[check] cannot load %s: %r" % (_f, _e), file=sys.stderr)
 
 
 def main():
